@@ -90,6 +90,45 @@ def _process_item(kind, head, sub, meta, occ=None):
             raise ExtractError(f"{what}: fragment end anchor `{t[1]}` not found")
         a = f["body_open"] + i0
         b = f["body_open"] + i1 + len(t[1])
+        # the end anchor may be a minimal prefix of the last statement: extend to the end of that statement (`;` at
+        # depth 0), and close any block the fragment opened (so an edit that wraps the statement in an `if` is still extracted whole)
+        if not src[a:b].rstrip().endswith((";", "}")):
+            d = 0
+            for c in m[a:b]:
+                if c in "([":
+                    d += 1
+                elif c in ")]":
+                    d -= 1
+            k = b
+            while k < f["end"]:
+                c = m[k]
+                if c in "([{":
+                    d += 1
+                elif c in ")]}":
+                    if d == 0:
+                        break
+                    d -= 1
+                elif c == ";" and d == 0:
+                    k += 1
+                    break
+                k += 1
+            b = k
+        depth = 0
+        for c in m[a:b]:
+            if c == "{":
+                depth += 1
+            elif c == "}":
+                depth -= 1
+        k = b
+        while depth > 0 and k < f["end"] - 1:
+            c = m[k]
+            if c == "{":
+                depth += 1
+            elif c == "}":
+                depth -= 1
+            k += 1
+        if depth == 0:
+            b = k
         text = src[a:b]
         body_open_rel = None
     elif kind == "arm":
